@@ -165,7 +165,7 @@ def run(env: Env) -> Outcome:
     # second half (after everything above, so that the streams above are what they were): payloads that to_serialized did not
     # write, the full to_dict -> JSON -> from_dict path with the resumed run's closed form, pause points with nothing in flight
     c12x.payload_stream(env, out, env.budget(400, 8000))
-    c12x.todict_stream(env, out, env.budget(300, 6000))
-    parked = c12x.parked_runs(env, out, env.budget(30, 600), corpus)
+    c12x.todict_stream(env, out, env.budget(200, 5000))
+    parked = c12x.parked_runs(env, out, env.budget(24, 500), corpus)
     suite.runner_corr(out, parked, "engine-runner-resumed-parked")
     return out
